@@ -61,7 +61,7 @@ type simAdapter struct {
 	pendingCut bool
 	inc     int
 	// counters
-	FiredEnq, FiredDeq, FiredAck, Dups, Delays int
+	FiredEnq, FiredDeq, FiredAck, FiredStall, Dups, Delays int
 	lens     []lenObs
 	enqIDs   []string // job ids in the order the adapter stored them (parsed from the bytes)
 	deliveredBad []bool // per delivered corrupted entry: might it still decode?
@@ -235,6 +235,19 @@ func (a *simAdapter) Acknowledge(id string) bool {
 	a.hb()
 	defer a.cutPoint()
 	defer a.hb()
+	if a.faultsOn && a.cfg.FAckStall > 0 && simrt.Chance(a.cfg.FAckStall) {
+		// stalled backend: the acknowledgement does not return until the harness
+		// releases it (next Settle, or the epilogue); the calling pool goroutine
+		// keeps its concurrency slot meanwhile
+		a.FiredStall++
+		root := a.root
+		ep := root.stallEpoch
+		root.stalledNow++
+		a.hb()
+		simrt.Block(func() bool { return root.stallEpoch > ep })
+		a.hb()
+		root.stalledNow--
+	}
 	if a.faultsOn && a.cfg.FAck > 0 && simrt.Chance(a.cfg.FAck) {
 		a.FiredAck++
 		a.log("ack", -1, id, false)
